@@ -96,8 +96,8 @@ def _classify(P, A, f, e):
     root = v.root or "unknown"
     memo = e.field in F.MEMO_FIELDS or any(m in e.target for m in F.MEMO_FIELDS)
     if memo and root in ("self", "cache"):
-        if f.name in MEMO_WRITER_NAMES:
-            return True, "memo write in the memo's getter/reset (judged by MEMO-KEY)"
+        if f.name in MEMO_WRITER_NAMES or (f.name.startswith("_") and not f.name.startswith("__")):
+            return True, "memo write in the memo's getter/reset or a private helper of it (judged by MEMO-KEY)"
         return False, "memo"
     if f.name in ("__init__", "__new__", "__post_init__") and root == "self" and _is_self_path(e.target):
         return True, "constructor store"
@@ -427,15 +427,19 @@ def rule_memo_key(P):
     r.looked_at(trim)
     opts = [p for p in trim.params[1:]]
     n_idx = 0
-    for n in walk_live(trim.node):
-        if isinstance(n, ast.Subscript) and norm(n.value).endswith("._trim_cache"):
-            n_idx += 1
-            ok = len(opts) == 1 and W.is_name(n.slice, opts[0])
-            if not ok or isinstance(n.ctx, ast.Store):
-                r.add(trim, n, ok, "" if ok else f"_trim_cache indexed by `{norm(n.slice)}`, not by trim's option",
-                      slots=dict(index=norm(n.slice)))
+    for m in P.cls("cfg.py", "CFG").methods.values():
+        if m.name == "__init__":
+            continue
+        for n in walk_live(m.node):
+            if isinstance(n, ast.Subscript) and norm(n.value).endswith("._trim_cache"):
+                n_idx += 1
+                # the index is trim's option, or -- in a private helper that trim calls -- the parameter that receives it
+                ok = isinstance(n.slice, ast.Name) and n.slice.id in m.params[1:] and (m is trim and len(opts) == 1 or m.name.startswith("_"))
+                if not ok or isinstance(n.ctx, ast.Store):
+                    r.add(m, n, ok, "" if ok else f"_trim_cache indexed by `{norm(n.slice)}`, not by trim's option",
+                          slots=dict(index=norm(n.slice)))
     if n_idx < 3:
-        raise AnalysisError("cfg.py::CFG.trim: _trim_cache accesses not found")
+        raise AnalysisError("cfg.py::CFG: _trim_cache accesses not found")
     # stored value is the trimmed grammar of the matching pass
     r.min_instances = 3 * 2 + 2
     return r
